@@ -90,7 +90,7 @@ func (f fileObj) ReadAt(off int64, n int) ([]byte, bool) {
 // SizedObj is an object whose content the model does not know (length-only).
 type SizedObj struct{ N int64 }
 
-func (s SizedObj) Size() int64                        { return s.N }
+func (s SizedObj) Size() int64                      { return s.N }
 func (s SizedObj) ReadAt(int64, int) ([]byte, bool) { return nil, false }
 
 type cwdKind int
@@ -105,8 +105,8 @@ const (
 
 type cwdState struct {
 	kind cwdKind
-	dir  string         // real path
-	rem  map[string]int // names not yet reported (valid + dangling are decided at report time)
+	dir  string           // real path
+	rem  map[string]int   // names not yet reported (valid + dangling are decided at report time)
 	at0  map[string]int64 // access time of each entry as observed when the directory was opened
 	// alt: OPEN_DIR that failed may or may not have kept the previous directory
 	altNone bool
@@ -240,15 +240,15 @@ func (m *Model) readFixed(c *Conn, n int, what string) ([]byte, error) {
 // pre holds what the harness observed of the real tree immediately before a
 // request was sent.
 type pre struct {
-	real, clean  string
-	usable       bool
-	escapes      bool
-	lfi, fi      os.FileInfo
-	lerr, serr   error
-	parentIsDir  bool
-	snap         map[string]Snap
-	woSize       int64
-	dirEmpty     bool
+	real, clean string
+	usable      bool
+	escapes     bool
+	lfi, fi     os.FileInfo
+	lerr, serr  error
+	parentIsDir bool
+	snap        map[string]Snap
+	woSize      int64
+	dirEmpty    bool
 }
 
 // Observe must be called before the request is sent (sessions that may mutate
@@ -597,11 +597,11 @@ func (m *Model) openDir(c *Conn, r Req, pr *pre, what string) error {
 }
 
 type entTruth struct {
-	size                int64
-	isDir               bool
-	mtime, ctime        int64
-	atimeA, atimeB      int64
-	ok                  bool
+	size           int64
+	isDir          bool
+	mtime, ctime   int64
+	atimeA, atimeB int64
+	ok             bool
 }
 
 func entryTruth(dir, name string) entTruth {
@@ -1594,7 +1594,7 @@ var _ = sort.Strings
 // MultiObj is an object whose content is one of several admissible byte strings (don't-cares).
 type MultiObj [][]byte
 
-func (m MultiObj) Size() int64 { return int64(len(m[0])) }
+func (m MultiObj) Size() int64                            { return int64(len(m[0])) }
 func (m MultiObj) ReadAt(off int64, n int) ([]byte, bool) { return BytesObj(m[0]).ReadAt(off, n) }
 
 // Match reports whether got equals the slice at off of any candidate.
